@@ -26,7 +26,10 @@ RULE = ('cells: values from the grammar of harness/pyvalues.py plus edge lists (
         'harness/histgen.py extended with trigger-formula data columns (every third history starts from an Any/Text/Blob/Numeric '
         'trigger column with a rich formula and a formula inspecting it); after every successful bundle of a clean document the REAL '
         'reload (fetch_table(formulas=True) -> get_action_repr -> blobs -> marshal -> table_data_from_db -> load_meta_tables/load_table '
-        '-> Calculate) must store nothing and report the same tables. A cell case is non-trivial when the encoding is a list or the '
+        '-> Calculate) must store nothing and report the same tables; histories contain formula columns of every type whose formulas '
+        'return texts the type may re-parse (JSON lists, numeric/bool/date-looking) and values of the wrong type; the same per cell: '
+        'result -> convert -> set -> save -> load against the recomputed convert(result), on the implementation and in the model. '
+        'A cell case is non-trivial when the encoding is a list or the '
         'reloaded object differs; a search case when the document has rows.')
 TRUSTED = ['hand-written model Model/Reload.v (column.<Class>.set, main._decode_db_value, strict_equal, equal_encoding, the change '
            'detection of _recompute_step/_changes_to_actions, what get_cell_value raises) on top of Model/Values.v (C22/C24), compared '
@@ -799,7 +802,9 @@ def correspond_formula_cells(ctx):
   rng = ctx.rng
   stream = [c for c in formula_cell_stream(ctx) if c[0].split(':')[0] not in ('Ref', 'RefList', 'Attachments')]
   if ctx.tier != 'thorough':
-    stream = rng.sample(stream, min(len(stream), 320))
+    texts = [c for c in stream if isinstance(c[1], str) and c[1] in FORMULA_TEXTS]      # always: the re-parsable texts x every type
+    rest = [c for c in stream if not (isinstance(c[1], str) and c[1] in FORMULA_TEXTS)]
+    stream = texts + rng.sample(rest, min(len(rest), 200))
   cases, meta = [], []
   seen = set()
   for t, r in stream:
@@ -808,10 +813,12 @@ def correspond_formula_cells(ctx):
       if fc is None:
         continue
       x, s, w, emitted, pairs = fc
-      if not (comparable(x) and comparable(w)):
-        continue
+      if not (comparable(r) and comparable(x) and comparable(w)):
+        continue          # the model side is run on plain data, dates and texts; search_formula_cells runs on everything
       b = pv.Builder()
       zones = (t.split(':', 1)[1],) if t.startswith('DateTime') else ()
+      for z in zones:
+        b.add_zone(z)
       for v in (r, x, s, w):
         b.collect(v, zones)
       collect_encoded(b, objtypes.encode_object(s))
@@ -856,6 +863,16 @@ def search_formula_cells(ctx):
       kind = classify_formula_cell(r, x, s, w)
       reported[kind] += 1
       if reported[kind] <= 3:
+        doc = [[['AddTable', 'T', [{'id': 'A', 'type': t, 'isFormula': True, 'formula': pv.to_expr(r)}]]], [['AddRecord', 'T', None, {}]]]
+        try:
+          res = check_reload(build(doc))
+        except Exception:
+          res = []
+        if res and kind == 'formula_cell_not_fixpoint':
+          # the same failure as a document: one formula column of that type returning that value, one record
+          ctx.violation(res[0][0], 'document with a %s formula column returning %s: %s' % (t, pv.to_expr(r)[:80], res[0][1]),
+                        {'history': doc, 'kind': res[0][0]})
+          continue
         ctx.violation(kind, 'a %s formula cell whose formula returns %s is converted to %s, stored as %s, loaded as %s: recomputing it after the '
                       'load stores an action' % (t, pv.to_expr(r)[:80], pv.to_expr(x)[:60], pv.to_expr(s)[:60], pv.to_expr(w)[:60]),
                       {'cell': {'type': t, 'expr': pv.to_expr(r)}, 'kind': kind})
@@ -1115,7 +1132,7 @@ def check_reload(e, classify=True):
     base = outcome(*raw_clone(e), saved=s1)
   except Exception:
     base = None
-  if base is not None and base != quiet:
+  if base is not None and base[0] != s1:      # the TABLES differ: formula values the saved engine holds are not what a fresh engine computes
     issues.append(('stale_before_save', 'a load of the saved engine\'s own objects (no encoding leg) already changes the document: '
                    'Calculate stored %s; %s' % (repr(base[1])[:200], '; '.join(G.diff_snapshots(s1, base[0], limit=2)))))
     target = base
